@@ -4,14 +4,33 @@ import BridgeVerif.Translated.PlayLemmasA
 namespace Bridge.Translated
 open Bridge Bridge.Py Bridge.Generated.PyCore
 
+/-! ## equation lemmas that fire only on constructor-headed values (as in AuctionLemmasC.lean, which is not imported: it
+also holds lemmas about the methods of `BiddingPhase`, and the playing phase shall not depend on those) -/
+theorem pp_getAttr_obj (r : Rec) (c : Id) (fs : List (Id × Val)) (a : Id) :
+    getAttrF r P (.obj c fs) a =
+      if a = K.class__ then .ok (.cls c) else
+      match lookup fs a with
+      | some x => .ok x
+      | none => (callMethod r P c a [.obj c fs] (.exc K.AttributeError)) >>= fun x => .ok x.1 := rfl
+theorem pp_getAttr_enum_value (r : Rec) (c : Id) (n : Int) : getAttrF r P (.enum c n) K.value = .ok (.int n) := rfl
+theorem pp_getAttr_encSeat_value (r : Rec) (p : Seat) : getAttrF r P (encSeat p) K.value = .ok (.int p.value) := rfl
+theorem pp_meth_obj (r : Rec) (c : Id) (fs : List (Id × Val)) (m : Id) (args : List Val) :
+    methF r P (.obj c fs) m args = callMethod r P c m (.obj c fs :: args) (.exc K.AttributeError) := rfl
+theorem pp_index_dict (r : Rec) (kvs : List (Val × Val)) (iv : Val) :
+    indexF r P (.dict kvs) iv = match lookupD kvs iv with
+      | some v => .ok v
+      | none => .error (.exc K.KeyError) := rfl
+theorem pp_truthy_bool (b : Bool) : truthy (.bool b) = b := rfl
+theorem pp_asInt_int (n : Int) : asInt? (.int n) = some n := rfl
+theorem pp_encOpt_some {α} (g : α → Val) (a : α) : encOpt g (some a) = g a := rfl
+theorem pp_encOpt_none {α} (g : α → Val) : encOpt g none = .none := rfl
+
 theorem index_tuple (r : Rec) (xs : List Val) (iv : Val) :
     indexF r P (.tuple xs) iv = match asInt? iv with
       | some n => (match normIndex xs.length n with
         | some k => .ok (xs.getD k .none)
         | none => .error (.exc K.IndexError))
       | none => .error (.exc K.TypeError) := rfl
-theorem meth_encSeat' (r : Rec) (p : Seat) (m : Id) (args : List Val) :
-    methF r P (encSeat p) m args = callMethod r P n_Player m (encSeat p :: args) (.exc K.AttributeError) := rfl
 theorem getAttr_card_suit (r : Rec) (c : Card) : getAttrF r P (encCard c) n_suit = .ok (encSuit c.suit) := rfl
 theorem getAttr_card_rank (r : Rec) (c : Card) : getAttrF r P (encCard c) n_rank = .ok (.int c.rank) := rfl
 theorem compare_int (r : Rec) (op : CmpOp) (a b : Int) :
@@ -42,10 +61,10 @@ to re-discover the whole symbolic execution as one definitional-equality problem
 statements of a body). -/
 macro "ppsimp" "[" ls:Lean.Parser.Tactic.simpLemma,* "]" : tactic =>
   `(tactic| simp -implicitDefEqProofs +decide only [execStmtF, execF, eval_succ, exec_succ, call_succ, evalF, lookup, bind_ok, bind_err, pure_eq,
-      throw_eq, Target.toExpr, getAttr_obj, getAttr_enum_value, getAttr_encSeat_value, meth_obj, index_dict,
-      truthy_bool, asInt_int, assignToF, assignAllF, mutF, setField, update, callMethod, bindParams, cmpF, mapR,
+      throw_eq, Target.toExpr, pp_getAttr_obj, pp_getAttr_enum_value, pp_getAttr_encSeat_value, pp_meth_obj, pp_index_dict,
+      pp_truthy_bool, pp_asInt_int, assignToF, assignAllF, mutF, setField, update, callMethod, bindParams, cmpF, mapR,
       optIntF, binopVal, Option.map, Option.getD_some, ↓reduceIte, reduceIte, Option.isNone_some, Option.isNone_none,
-      Option.isSome_some, Option.isSome_none, Bool.false_eq_true, reduceCtorEq, beq_none_none, encOpt_some, encOpt_none,
+      Option.isSome_some, Option.isSome_none, Bool.false_eq_true, reduceCtorEq, beq_none_none, pp_encOpt_some, pp_encOpt_none,
       Int.reduceSub, Int.reduceAdd, Int.reduceNeg, Bool.not_true, Bool.not_false, List.cons_append, List.nil_append,
       lookup_update_same, compare_int, beq_encSuit, beq_encSeat, beq_encCard, Bool.not_eq_true', decide_eq_true_eq,
       decide_eq_false_iff_not, List.length_cons, List.length_nil, List.zip_cons_cons, List.zip_nil_right, List.foldl_cons,
